@@ -235,6 +235,12 @@ VALID_CORPUS += [
     for dev, sv in (("numpy", [400]), ("numpy", [30, 50]), ("mixed", [200]), ("jax", [64]))
 ]
 
+# a single counts measurement returned as a 1-tuple, called with a broadcast parameter (recorded finding: the tuple is lost)
+VALID_CORPUS += [
+    {"n": 1, "dev": "numpy", "seed": 99, "gates": [["H", 0]], "sv": [50], "batch": {"wire": 0, "xs": [0.1, 0.2, 0.3]},
+     "mps": [{"t": "counts", "ws": [0], "all": True}]},
+]
+
 # sums of Shots objects (ints, int sequences, (shots, copies) pairs; equal shot values meeting at the seam)
 SHOTS_CORPUS = [
     {"ops": [[10, 100, [100, 3], [200, 4]]]},
@@ -684,6 +690,10 @@ def run(ctx):
         vhist["broadcast"] += "batch" in c
         vhist["shot_vectors"] += len(c["sv"]) > 1
         vhist["measurements"] += len(c["mps"])
+        if o.get("unwrapped_single_counts"):
+            ctx.violation("finding:broadcast_single_counts_not_a_1_tuple", {"stream": "valid", "case": c,
+                          "reproduce": "f = qp.set_shots(qp.QNode(lambda x: (qp.RY(x, 0), (qp.counts(wires=[0]),))[1], qp.device('default.qubit', wires=1)), 50); type(f(np.array([0.1, 0.2, 0.3])))  # list of 3 dicts, not a 1-tuple"},
+                          what="a QNode whose quantum function returns the 1-tuple (qp.counts(...),) loses the tuple when called with a broadcast parameter")
         for msg in direct_valid(c, o):
             ctx.violation("valid:" + json.dumps(c, sort_keys=True), {"stream": "valid", "case": c, "observed": o, "complaint": msg},
                           what=msg)
